@@ -311,6 +311,29 @@ def nat_shapes(h):
             have = [[f['type'] for f in rd['schema']['fields'] if f['name'] == 't'] for rd in dp.descriptor['resources']]
             h.check(have == [[w] for w in want] and dp.valid, 'dataflows/processors/add_computed_field.py::add_computed_field.func',
                     cfg, want, have)
+    # same-SHAPED resources (the same field names) whose columns differ in type: a field-level step over all of them leaves every
+    # resource its own field descriptors -- the types stay those of its own rows, and a later step restricted to one resource
+    # (set_type on the last) does not reach the others
+    from dataflows import set_type, add_field
+    same_shaped = lambda: [[{'id': i, 'value': i * 2, 'gone': 'x'} for i in range(3)],
+                           [{'id': 'k%d' % i, 'value': 'text %d' % i, 'gone': 1.5} for i in range(2)],
+                           [{'id': i, 'value': i * 2, 'gone': 'y'} for i in range(2)]]
+    field_steps = {'delete_fields': lambda: delete_fields(['gone']), 'select_fields': lambda: select_fields(['id', 'value']),
+                   'rename_fields': lambda: __import__('dataflows').rename_fields({'gone': 'kept'}),
+                   'add_field': lambda: add_field('extra', 'string', 'e')}
+    for label, mk in sorted(field_steps.items()):
+        for tail in ((), ('set_type-on-the-last',)):
+            steps = [mk()] + ([set_type('value', type='number', resources=-1)] if tail else [])
+            cfg = ('same-shaped resources, differently typed', label) + tail
+            got = h.run(lambda: Flow(*same_shaped(), *steps).results())
+            if got[0] != 'ok':
+                h.check(False, 'pipeline', cfg, 'results() validates', (got[1], str(getattr(got[2], 'cause', got[2]))[:300]))
+                continue
+            res, dp, _ = got[1]
+            types = [{f['name']: f['type'] for f in rd['schema']['fields']} for rd in dp.descriptor['resources']]
+            want = [('integer', 'integer'), ('string', 'string'), ('integer', 'number' if tail else 'integer')]
+            h.check([(t.get('id'), t.get('value')) for t in types] == want and dp.valid, 'pipeline', cfg, want,
+                    [(t.get('id'), t.get('value')) for t in types])
     for mode, want in (('inner', [2]), ('half-outer', [3]), ('full-outer', [5])):
         src = [{'city_id': i, 'pop': 10 * i} for i in (1, 2, 8, 9)]
         tgt = [{'id': 1, 'n': 'a'}, {'id': 2, 'n': 'b'}, {'id': 3, 'n': 'c'}]
@@ -352,3 +375,5 @@ ITEMS = [
 
 from contracts import reuse as _REUSE   # noqa: E402
 ITEMS.append(Item('second-use', None, [('catalogue', _REUSE.nat_second_use_for('C02'))], 'dataflows/base/datastream_processor.py::DataStreamProcessor._process'))
+from contracts.common import lazy_sym   # noqa: E402
+ITEMS.append(Item('add_field', lazy_sym('C10', 'sym_add_field'), [], 'dataflows/processors/add_field.py::add_field'))
